@@ -16,6 +16,8 @@ slot k (1-based) describes outbound number k:  <type><flags>
   type  A Logon (slot 1 is always the real Logon reply)  0 Heartbeat  1 TestRequest  2 ResendRequest
         4 SequenceReset  5 Logout  D NewOrderSingle  J AllocationInstruction (repeating group)
         8 ExecutionReport
+        E B K Q Y W Z X  application messages of type AE AB A1 0Q 1A 2Z 4B 5X (a session-level MsgType value is
+        a proper prefix of theirs)
   flags d  the application's replay filter declines this number
         l  the number was already covered by an earlier, complete ResendRequest
            (maximal runs of l-slots are re-requested right after their last message was sent;
@@ -41,7 +43,7 @@ META = {
     "tables": ["GenEnums", "GenConst"],
     "files": ["asyncfix/connection.py", "asyncfix/journaler.py", "asyncfix/codec.py", "asyncfix/session.py"],
     "rule": "exhaustive journals up to length 2 over the slot alphabet, random journals up to length 8 (thorough 12) with "
-            "slots in {3 application types, 6 session types, declined, hole, already resent once, sent with tag 43 / 122} x ALL (Begin, End) "
+            "slots in {3 application types, 8 application types whose MsgType has a session type value as proper prefix, 6 session types, declined, hole, already resent once, sent with tag 43 / 122} x ALL (Begin, End) "
             "in [-1, len+2]^2 incl. End=0 x {ACTIVE, RESENDREQ_AWAITING}, plus a malformed stream (missing / non-numeric / "
             "lenient / 64-bit-overflowing BeginSeqNo, EndSeqNo); a case is one (journal, request, start state); non-trivial "
             "when the request is well formed with Begin < next_num_out (something is replayed or gap-filled); distinct by "
@@ -64,6 +66,10 @@ META = {
 
 SESSION_TYPES = ["A", "0", "1", "2", "4", "5"]
 APP_TYPES = ["D", "J", "8"]
+# application message types whose MsgType value has the value of a session-level type as a proper prefix
+# (standard two-letter types AE TradeCaptureReport, AB NewOrderMultileg and custom types): slot letter -> MsgType.
+# The session-level test must compare the whole value of tag 35, never a prefix of it / of the raw frame.
+PREFIX_TYPES = {"E": "AE", "B": "AB", "K": "A1", "Q": "0Q", "Y": "1A", "W": "2Z", "Z": "4B", "X": "5X"}
 ST = {"ACTIVE": 17, "AWAITING": 12, "HANDLING": 10}
 EXC_CODES = {
     None: 0, "AssertionError": 1, "DuplicatedTagError": 2, "TagNotFoundError": 3, "ValueError": 4,
@@ -94,6 +100,10 @@ class Adapter:
     @staticmethod
     def codec(conn):
         return conn._codec
+
+    @staticmethod
+    def pending_test_req_id(conn):
+        return None if conn._test_req_id is None else str(conn._test_req_id)
 
 
 class FakeWriter:
@@ -265,6 +275,7 @@ class Env:
         so, si = self.stored()
         return {"state": int(self.conn.connection_state), "nout": self.sess().next_num_out, "sout": so,
                 "nin": self.sess().next_num_in, "sin": si, "clock": self.clock.t, "rows": self.rows(),
+                "testreq": Adapter.pending_test_req_id(self.conn),
                 "inbound": self.inbound_keys()}
 
 
@@ -299,6 +310,8 @@ async def build(env, slots, state):
             await conn.send_msg(FIXMessage(FMsg.NEWORDERSINGLE, {11: "c%d" % k, 55: "SYM", 54: 1, 38: 10 * k}))
         elif typ == "J":
             await conn.send_msg(FIXMessage("J", {70: "a%d" % k, 78: [{79: "x", 80: 1}, {79: "y", 80: 2, 467: "i"}], 58: "t=%d" % k}))
+        elif typ in PREFIX_TYPES:
+            await conn.send_msg(FIXMessage(PREFIX_TYPES[typ], {11: "c%d" % k, 58: "type %s" % PREFIX_TYPES[typ]}))
         elif typ == "8":
             await conn.send_msg(FIXMessage(FMsg.EXECUTIONREPORT, {37: "o%d" % k, 17: "e%d" % k, 150: "0", 39: "0"}))
         elif typ == "A":
@@ -409,8 +422,8 @@ def sx_optstr(v):
 
 def model_request(case, obs):
     pre = obs["pre"]
-    return "[%d,0,0,%d,%d,%d,%s,%s,%s,%s]" % (
-        pre["state"], pre["nout"], pre["sout"], pre["clock"], sx_rows(pre["rows"]),
+    return "[%d,0,%s,%d,%d,%d,%s,%s,%s,%s]" % (
+        pre["state"], sx_optstr(pre["testreq"]), pre["nout"], pre["sout"], pre["clock"], sx_rows(pre["rows"]),
         sx_optstr(case["begin"]), sx_optstr(case["end"]), sx(obs["declined"]))
 
 
@@ -565,6 +578,8 @@ def slot_alphabet(first=False):
     for t in APP_TYPES:
         out += [t, t + "d", t + "l", t + "h", t + "dl"]
     out += ["Dp", "Dpd", "Dq"]
+    for t in PREFIX_TYPES:
+        out += [t, t + "d"]
     for t in SESSION_TYPES:
         out += [t, t + "l", t + "h"]
     return out
@@ -587,12 +602,13 @@ def cases_for_journal(slots):
 
 def random_journal(rng, n):
     alpha = slot_alphabet()
-    weights = [(4 if len(a) == 1 and a in APP_TYPES else 2 if len(a) == 1 else 1) for a in alpha]
+    weights = [(4 if len(a) == 1 and a in APP_TYPES else 2 if len(a) == 1 else 1) for a in alpha]   # prefix types: 2
     return [rng.choice(slot_alphabet(True)) if k == 0 and rng.random() < 0.3 else ("A" if k == 0 else rng.choices(alpha, weights)[0])
             for k in range(n)]
 
 
 SHOWCASE = [
+    ["A", "E", "0", "B", "K", "Q", "1", "Y", "W", "Zd", "X", "D"],    # application types AE AB A1 0Q 1A 2Z 4B 5X among session rows
     ["A", "D", "0", "J", "8d", "1", "2", "4", "5", "D"],          # every message type once
     ["A", "D", "0", "0", "8"],                                     # pristine
     ["A", "Dl", "0l", "0l", "8"],                                  # second request over a replayed range
@@ -727,6 +743,7 @@ POSITIVE = {
     "C06_unanswerable_requests_ok/tag-absent": {"slots": ["A", "D"], "begin": None, "end": "0", "state": "ACTIVE"},
     "C06_bounded_end_ok/1": {"slots": ["A", "D", "D", "D"], "begin": "2", "end": "2", "state": "ACTIVE"},
     "C06_bounded_end_ok/2": {"slots": ["A", "D", "0", "D"], "begin": "2", "end": "3", "state": "ACTIVE"},
+    "C06_prefix_types_ok": {"slots": ["A", "E", "X", "0", "Y"], "begin": "1", "end": "0", "state": "ACTIVE"},
     "C06_hole_ok": {"slots": ["A", "D", "Dh", "D", "D"], "begin": "2", "end": "0", "state": "ACTIVE"},
     "C06_possdup_tags_ok/43": {"slots": ["A", "Dp"], "begin": "2", "end": "0", "state": "ACTIVE"},
     "C06_possdup_tags_ok/122": {"slots": ["A", "Dq"], "begin": "2", "end": "0", "state": "ACTIVE"},
